@@ -33,6 +33,21 @@ def _consts(ctx):
     return (constants.planck, constants.boltzmann, constants.speed_of_light), patched()
 
 
+def _rescale(ctx, h, k, fs, Ts):
+    """Replay: the counterexample was found for symbolic h, k; keep its dimensionless
+    ratios x = h f / (k T) and realise them with typhon's real constants (T scaled to ~300 K)."""
+    from fractions import Fraction
+    v = ctx.values
+    if "h" not in v:
+        return (*fs, *Ts)
+    hm, km = Fraction(v["h"]), Fraction(v["k"])
+    f0, T0 = Fraction(repr(fs[0])), Fraction(repr(Ts[0]))
+    x0 = hm * f0 / (km * T0)
+    Tn = [300.0 * float(Fraction(repr(t)) / T0) for t in Ts]
+    fn = [float(x0 * Fraction(repr(f)) / f0) * k * Tn[0] / h for f in fs]
+    return (*fn, *Tn)
+
+
 def _pos(ctx, name):
     v = ctx.real(name, lo=0, lo_open=True)
     return Q.of(v) if ctx.sym else v
@@ -51,6 +66,7 @@ def k_planck(ctx):
     T = _pos(ctx, "T")
     T2 = _pos(ctx, "T2")
     if not ctx.sym:
+        f, T, T2 = _rescale(ctx, h, k, [f], [T, T2])
         # stated domain of the property: 1e-6 <= hf/kT <= 600 (floats under/overflow outside)
         for t in (T, T2):
             x = h * f / (k * t)
@@ -142,6 +158,8 @@ def k_density_planck(ctx):
     T = _pos(ctx, "T")
     fs = [_pos(ctx, "f0"), _pos(ctx, "f1")]
     if not ctx.sym:
+        f0, f1, T = _rescale(ctx, h, k, fs, [T])
+        fs = [f0, f1]
         for f in fs:
             ctx.assume(1e-6 <= h * f / (k * T) <= 600)
     with env:
